@@ -118,3 +118,176 @@ def has(root: ast.AST, pattern: str, b: dict[str, str] | None = None) -> bool:
 def subst(text: str, b: dict[str, str]) -> str:
     """A pattern's text with the bound metavariables filled in (for messages and fact lookups)."""
     return re.sub(r"\$(\w+)", lambda m: b.get(m.group(1), m.group(0)), text)
+
+
+# ---------------------------------------------------------------------------
+# Strings that compare up to the names of temporaries.
+#
+# A rule that says `"pair = sibling + root" in txt` or `c.subject == "len(members)"`
+# means the construct, not the spelling of `pair`, `sibling`, `members`. S is a
+# str that remembers the scope it was rendered in: an identifier of the *probe*
+# that is neither a parameter of the function, nor a module-level or builtin
+# name, is a temporary and matches any identifier (consistently within the
+# probe). Exact text still matches first, so S is never stricter than str.
+
+import builtins as _builtins
+
+_BUILTINS = frozenset(dir(_builtins)) | {"self", "cls"}
+
+
+class Scope:
+    """What is *not* a temporary in a function: parameters (its own and the
+    enclosing functions'), module-level names, builtins."""
+
+    def __init__(self, fi) -> None:
+        fixed = set(_BUILTINS)
+        f = fi
+        while f is not None:
+            a = f.node.args
+            for p in a.posonlyargs + a.args + a.kwonlyargs + ([a.vararg] if a.vararg else []) + ([a.kwarg] if a.kwarg else []):
+                fixed.add(p.arg)
+            f = f.parent
+        mi = fi.module
+        fixed |= set(getattr(mi, "imports", {}))
+        fixed |= {q.rsplit(".", 1)[-1] for q in getattr(mi, "functions", {})} | set(getattr(mi, "functions", {}))
+        fixed |= set(getattr(mi, "classes", {}))
+        fixed |= set(getattr(mi, "assigns", {}))
+        for n in mi.tree.body if hasattr(mi, "tree") else []:
+            if isinstance(n, (ast.Import, ast.ImportFrom)):
+                fixed |= {(x.asname or x.name).split(".")[0] for x in n.names}
+        # identifiers that occur in the function as it stands: a probe's name that is still there means
+        # itself (two sibling temporaries must not stand in for each other); only a name that has
+        # vanished -- the temporary was renamed -- is read as "some temporary"
+        present = set()
+        top = fi
+        while top.parent is not None:
+            top = top.parent
+        for n in ast.walk(top.node):
+            if isinstance(n, ast.Name):
+                present.add(n.id)
+            elif isinstance(n, ast.arg):
+                present.add(n.arg)
+        self.fixed = frozenset(fixed | present)
+
+
+_parse_cache: dict[str, ast.AST | None] = {}
+
+
+def _parse_any(text: str) -> ast.AST | None:
+    if text in _parse_cache:
+        return _parse_cache[text]
+    node: ast.AST | None
+    try:
+        node = ast.parse(text, mode="eval").body
+    except SyntaxError:
+        try:
+            mod = ast.parse(text)
+            node = mod if len(mod.body) != 1 else mod.body[0]
+            if isinstance(node, ast.Expr):
+                node = node.value
+        except SyntaxError:
+            node = None
+    _parse_cache[text] = node
+    return node
+
+
+
+
+
+def _probe(text: str, scope: Scope) -> ast.AST | None:
+    """The probe text as a pattern: temporaries become metavariables."""
+    cache = scope.__dict__.setdefault("_probes", {})
+    if text in cache:
+        return cache[text]
+    node = _parse_any(text)
+    if node is None or isinstance(node, ast.Module):
+        cache[text] = None
+        return None
+    node = ast.parse(text, mode="eval").body if isinstance(node, ast.expr) else ast.parse(text).body[0]
+    if isinstance(node, ast.Expr):
+        node = node.value
+    free = False
+    for n in ast.walk(node):
+        if isinstance(n, ast.Name) and n.id not in scope.fixed:
+            n.id = _MV + n.id
+            free = True
+    if isinstance(node, ast.Name):
+        free = False  # a bare identifier says nothing once its name is a wildcard: exact text only
+    cache[text] = node if free else None  # no temporaries: exact text already decided it
+    return cache[text]
+
+
+def _match_somewhere(pat: ast.AST, root: ast.AST) -> bool:
+    for n in ast.walk(root):
+        if type(n) is type(pat) and match(pat, n, {}):
+            return True
+    return False
+
+
+class S(str):
+    """str that equals / contains a probe up to the names of temporaries."""
+
+    scope: Scope | None
+    root: ast.AST | None
+
+    def __new__(cls, text: str, scope: Scope | None = None, root: ast.AST | None = None):
+        o = super().__new__(cls, text)
+        o.scope = scope
+        o.root = root
+        return o
+
+    def _tree(self) -> ast.AST | None:
+        return self.root if self.root is not None else _parse_any(str.__str__(self))
+
+    def __eq__(self, other) -> bool:  # type: ignore[override]
+        r = str.__eq__(self, other)
+        if r is True or self.scope is None or not isinstance(other, str) or isinstance(other, S):
+            return r
+        pat = _probe(other, self.scope)
+        tree = self._tree()
+        if pat is None or tree is None or type(pat) is not type(tree):
+            return False
+        return match(pat, tree, {})
+
+    def __ne__(self, other) -> bool:  # type: ignore[override]
+        return not self.__eq__(other)
+
+    __hash__ = str.__hash__
+
+    def __contains__(self, frag) -> bool:  # type: ignore[override]
+        if str.__contains__(self, frag):
+            return True
+        if self.scope is None or not isinstance(frag, str):
+            return False
+        pat = _probe(frag, self.scope)
+        tree = self._tree()
+        if pat is None or tree is None:
+            return False
+        return _match_somewhere(pat, tree)
+
+    def split(self, *a, **k):  # type: ignore[override]
+        return [S(x, self.scope) for x in str.split(self, *a, **k)]
+
+    def __add__(self, other):  # type: ignore[override]
+        return S(str.__add__(self, other), self.scope)
+
+    def strip(self, *a):  # type: ignore[override]
+        return S(str.strip(self, *a), self.scope)
+
+
+def text(fi, node: ast.AST | None = None) -> S:
+    """Normalised text of a function (or of a node inside it) that compares up
+    to the names of the function's temporaries."""
+    n = node if node is not None else fi.node
+    return S(norm(n), scope_of(fi), n)
+
+
+def scope_of(fi) -> Scope:
+    s = getattr(fi, "_scope", None)
+    if s is None:
+        s = Scope(fi)
+        try:
+            fi._scope = s
+        except AttributeError:
+            pass
+    return s
